@@ -38,4 +38,19 @@ func init() {
 
 	addMutant(mutant{Name: "verifier/leader-stamp-on-copy", Fire: []string{"VF-09"},
 		Edits: []edit{{"verifier/store.go", "			log.Extensions = encodeCheckpointMeta(startIdx, checksum)", "			cp := *log\n			cp.Extensions = encodeCheckpointMeta(startIdx, checksum)\n			log = &cp"}}})
+
+	addMutant(mutant{Name: "reader/index-scratch-in-struct", Fire: []string{"ACC-09"},
+		Edits: []edit{{"segment/reader.go", "	tail tailWriter\n}", "	tail tailWriter\n\n	idxBuf [4]byte\n}"},
+			{"segment/reader.go", "	var bs [4]byte\n	n, err := r.rf.ReadAt(bs[:], int64(byteOffset))", "	bs := &r.idxBuf\n	n, err := r.rf.ReadAt(bs[:], int64(byteOffset))"}}})
+	addMutant(mutant{Name: "silent/reader-index-scratch-made", Silent: true, Note: "a per-call make() instead of a local array",
+		Edits: []edit{{"segment/reader.go", "	var bs [4]byte\n	n, err := r.rf.ReadAt(bs[:], int64(byteOffset))", "	bs := make([]byte, 4)\n	n, err := r.rf.ReadAt(bs[:], int64(byteOffset))"}}})
+	addMutant(mutant{Name: "state/getlog-caches-last-lookup", Fire: []string{"ACC-09"},
+		Edits: []edit{{"state.go", "	seg, err := s.findSegmentReader(index)\n	if err != nil {\n		return nil, err\n	}\n", "	seg, err := s.findSegmentReader(index)\n	if err != nil {\n		return nil, err\n	}\n	s.nextBaseIndex = index\n"}}})
+	addMutant(mutant{Name: "verifier/checkpointfn-dropped-without-reportfn", Fire: []string{"VF-29"},
+		Edits: []edit{{"verifier/store.go", "		checkpointFn: checkpointFn,\n		reportFn:     reportFn,\n	}\n	go c.runVerifier()", "	}\n	if reportFn == nil {\n		return c\n	}\n	c.checkpointFn = checkpointFn\n	c.reportFn = reportFn\n	go c.runVerifier()"}}})
+	addMutant(mutant{Name: "silent/newlogstore-nil-reportfn-skips-goroutine", Silent: true, Note: "no goroutine when there is nobody to report to; the configuration is stored all the same",
+		Edits: []edit{{"verifier/store.go", "	go c.runVerifier()\n	return c", "	if reportFn == nil {\n		return c\n	}\n	go c.runVerifier()\n	return c"}}})
+	addMutant(mutant{Name: "wal/storelogs-shared-arena", Fire: []string{"VF-28"},
+		Edits: []edit{{"wal.go", "	encoded := make([]types.LogEntry, len(logs))\n	for i, l := range logs {", "	encoded := make([]types.LogEntry, len(logs))\n	arena := make([]byte, 0, 128*len(logs))\n	for i, l := range logs {"},
+			{"wal.go", "		var buf bytes.Buffer\n		if err := w.codec.Encode(l, &buf); err != nil {", "		buf := *bytes.NewBuffer(arena[len(arena):])\n		arena = arena[:len(arena)+cap(arena)/len(logs)]\n		if err := w.codec.Encode(l, &buf); err != nil {"}}})
 }
